@@ -52,8 +52,9 @@ def eval (σ : Nat → Option Outcome) : Stmt → Nat → World → R
   | .loop k body, acc, w => loopS (eval σ body) k acc w
   | .ret e, acc, w => (some (.ret (e.eval acc), acc), w)
   | .raise n, acc, w => (some (.raise (.user n), acc), w)
+  | .raiseB n, acc, w => (some (.raise (.base n), acc), w)
   | .ifLt n a b, acc, w => if acc < n then eval σ a acc w else eval σ b acc w
-  | .call _ p, acc, w =>
+  | .call _ _ p, acc, w =>
     match eval σ p 0 w with
     | (none, w') => (none, w')
     | (some (c, acc'), w') =>
